@@ -58,7 +58,7 @@ SPEC['C07'] = ('Cyclic task requirements are detected instead of recursing', ['L
   ('C07_cycle_aborts_before_execution', 'Local', 'require_cycle_aborts',
    'if reserving the require edge is rejected as a cycle, require aborts with a cyclic dependency whatever make_task_consistent would do: it is never entered'),
 ], 'Together with C10 (add_edge rejects exactly when the destination reaches the source) this gives detection for cycles of any length; no re-entry is proved over whole top-down sessions (ExecInv.v); for bottom-up builds it is decided by correspondence + oracle.')
-SPEC['C08'] = ('Recorded dependencies are exactly those of the latest execution', ['Findings', 'Local2'], [
+SPEC['C08'] = ('Recorded dependencies are exactly those of the latest execution', ['Findings', 'Local2', 'History', 'ExecInv', 'ExecSession', 'Cert'], [
   ('C08_general_refuted', 'Findings', 'C08_general_refuted', 'recorded finding (O7): with two different checkers on one target only the last require checker is kept'),
   ('C08_require_records_checker_and_stamp', 'Local2', 'update_require_dependency_done', 'a completed require records exactly DRequire t c stamp on the edge from the executing task'),
 ], 'PARTIAL: exactness over whole executions is decided by the store-dump correspondence and the op-log oracle.')
@@ -95,3 +95,18 @@ SPEC['C20'] = ('Incremental builds abort only for violations that exist now', ['
   ('C20_dynamic_refuted_cycle', 'Findings', 'C20_dynamic_refuted_cycle', 'recorded finding (O5b)'),
   ('C20_dynamic_refuted_hidden', 'Findings', 'C20_dynamic_refuted_hidden', 'recorded finding (O5c)'),
 ], 'Aborts are decided on RECORDED dependencies; three role-inversion patterns where recorded and current behaviour differ are recorded findings.')
+
+CLASS_BINDERS = '''  forall (RC : rcid -> rchecker) (OC : ocid -> ochecker) (P : task -> prog) (sf : rcid -> res -> content -> Z) (always : ocid),
+  (forall c env r v, rc_stamp (RC c) env r v = inl (sf c r v)) ->     (* stampers are total and do not depend on the checker environment *)
+  (forall t, NR [] (P t)) ->                                          (* no program touches a target twice in one execution *)
+'''
+RAW['C08'] = [
+  ('C08_exact_record_all_histories',
+   'for ALL programs of the class, checkers, fuel and ALL histories of top-down sessions and external changes from the empty store (also after aborted builds): for every task that has an output, the dependencies held by the store (row = edge data, kidsT = edge order) are EXACTLY the requires, reads and writes of one complete run of its program ending in that output: same targets in the same order, the checker that was passed, a stamp of the value that run saw; nothing left over (Rep is defined in Proofs/Cert.v)',
+   CLASS_BINDERS + """  forall fuel h, td_hist h ->
+  ~ Exists (Exists bug4) (fst (run_history RC OC P always fuel init_world h)) ->
+  forall t o, get_task_output (snd (run_history RC OC P always fuel init_world h)) t = Some o ->
+    Rep RC OC sf (row (snd (run_history RC OC P always fuel init_world h)) t) (P t) [] o
+        (kidsT (snd (run_history RC OC P always fuel init_world h)) t)""",
+   'intros RC OC P sf always HS HNR. exact (history_td_exact_record RC OC P sf HS HNR always).'),
+]
